@@ -7,7 +7,7 @@ from .C03 import inline
 
 EXPLANATION = ('Decided from MIR by table extraction: (R19.1) key tables agree: the writer skeleton (decoded fmt::Arguments template of to_yaml: keys, '
                'indentation nesting, placeholder <-> field by argument provenance) and the reader accesses (Index<&str> chains with literal keys <-> '
-               'field of the constructed Parameters) name the same key path for all ten entries; (R19.2) lexical compatibility: a `{}`-formatted '
+               'field of the constructed Parameters) name the same key path for all ten entries, and both arrays are printed whole (or shortened only by the entry the reader\'s padding restores); (R19.2) lexical compatibility: a `{}`-formatted '
                'f64 may print an integer-looking token, so every numeric entry\'s reader must accept Integer as well as Real; offsets: writer '
                '`deg(` + to_degrees + `)` <-> reader strip `deg(`/`)` + to_radians, plain Real and Integer accepted; (R19.3) 5 -> 6 padding and '
                'the != 6 error for both arrays; (R19.4) panic-site census from from_yaml_file (an error value, never a panic).  The YAML '
@@ -123,8 +123,8 @@ def key_paths(t):
             if c:
                 paths.add(c)
     mir.walk(t, f)
-    # keep maximal chains only
-    return {p for p in paths if not any(q != p and q[-len(p):] == p and len(q) > len(p) for q in paths)}
+    # keep maximal chains only: doc[a] is an intermediate of doc[a][b], not an access of its own
+    return {p for p in paths if not any(len(q) > len(p) and q[:len(p)] == p for q in paths)}
 
 
 def run(ctx):
@@ -169,7 +169,8 @@ def run(ctx):
         if f == 'dof':
             ctx.check('Yaml::as_i64' in calls, 'R19.2', f, rd.where(0), rd.path, 'dof is written as an integer and must be read with as_i64', found=sorted(calls))
     _offsets(ctx, prog, wt, rd)
-    _arrays(ctx, prog)
+    pads = _arrays(ctx, prog)
+    _whole_arrays(ctx, wr, wt, pads)
     n, nd, na = census.census(ctx, 'R19.4', [rd.path])
     ctx.extra['census'] = {'sites': n, 'discharged_by_bounds_or_guards': nd, 'allow_listed': na}
     ctx.floor('R19.4 census sites', n, 8)
@@ -177,6 +178,8 @@ def run(ctx):
 
 def _expand(prog, b, t):
     """expand `var` locals (single whole definition + later element writes) and inline straight-line helpers"""
+    seen = set()
+
     def f(x):
         if not isinstance(x, tuple):
             return x
@@ -184,6 +187,12 @@ def _expand(prog, b, t):
             whole = [d for d in b.defs().get(x[2], []) if d[4]]
             if len(whole) == 1:
                 return f(b._def_term(whole[0]))
+            if len(whole) > 1 and x[2] not in seen:
+                # a value chosen by a match / if: every alternative and the tests that choose between them
+                seen.add(x[2])
+                alts = [f(b._def_term(d)) for d in whole]
+                tests = [f(strip(g)) for d in whole for g, k, sw in b.guard_terms(d[1])]
+                return ('bundle',) + tuple(alts) + tuple(tests)
         return (x[0],) + tuple(f(y) if isinstance(y, tuple) else y for y in x[1:])
     t = f(t)
     # inline local helper calls one level (e.g. read_number(&params["a1"], "a1"))
@@ -310,7 +319,59 @@ def _converts_to_radians(prog, t):
     return bool(hit)
 
 
+def _whole_arrays(ctx, wr, wt, pads):
+    """R19.1b: the writer prints every entry of the two arrays, or omits exactly the entry the reader's padding restores"""
+    for f in ('offsets', 'sign_corrections'):
+        arg = wt[f][3]
+        its = mir.subterms(arg, lambda x: x[0] == 'call' and cname(x[1]) in ('slice::iter', 'IntoIterator::into_iter', 'slice::into_iter', 'array::iter'))
+        drops = sorted({cname(x[1]) for x in mir.subterms(arg, lambda x: x[0] == 'call' and cname(x[1]).split('::')[-1] in opw.ITER_DROPPERS)})
+        slices = mir.subterms(arg, lambda x: x[0] == 'call' and cname(x[1]) == 'Index::index' and 'Range' in show(x[3], maxdepth=2))
+        whole = len(its) == 1 and not drops and not slices and util.is_self_field(_uncast(its[0][2]), f)
+        ok, why = whole, 'every entry printed'
+        if not whole and len(slices) == 1 and not drops:
+            # a shortened form: accepted only when the omitted sixth entry is the value the reader pads with
+            c = _omitted_value(wr, slices[0], f)
+            ok = c is not None and f in pads and pads[f] is not None and c == pads[f]
+            why = 'sixth entry omitted when it equals %r; the reader pads a five-entry array with %r' % (c, pads.get(f))
+        ctx.check(ok, 'R19.1', f + '/all-entries', wr.where(0), wr.path,
+                  'to_yaml must print all six entries of `%s` (or omit only what the reader restores): %s' % (f, why if not whole else ''),
+                  found=show(arg, maxdepth=9), detail=why)
+
+
+def _uncast(t):
+    t = strip(t)
+    while isinstance(t, tuple) and t[0] in ('cast', 'as') and isinstance(t[1], tuple):
+        t = strip(t[1])
+    return t
+
+
+def _omitted_value(wr, sl, f):
+    """sl == self.f[..n] with n == 5 exactly on the edge self.f[5] == C (6 otherwise) -> C"""
+    rng = strip(sl[3])
+    if not (isinstance(rng, tuple) and rng[0] == 'agg' and str(rng[1]).endswith('RangeTo') and util.is_self_field(_uncast(sl[2]), f)):
+        return None
+    n = strip(rng[2])
+    if not (isinstance(n, tuple) and n[0] == 'var'):
+        return None
+    defs = [d for d in wr.defs().get(n[2], []) if d[4]]
+    vals = {}
+    for d in defs:
+        v = util.const_val(wr._def_term(d))
+        cond = None
+        for g, k, sw in wr.guard_terms(d[1]):
+            g = strip(g)
+            if isinstance(g, tuple) and g[0] == 'bin' and g[1] in ('Eq', 'Ne'):
+                a, c = strip(g[2]), util.const_val(g[3])
+                if isinstance(a, tuple) and a[0] == 'idx' and util.const_val(a[2]) == 5 and util.is_self_field(a[1], f) and c is not None:
+                    cond = (c, (g[1] == 'Eq') == (opw.truth(k) is True))
+        vals[v] = cond
+    if set(vals) == {5, 6} and vals[5] is not None and vals[6] is not None and vals[5][0] == vals[6][0] and vals[5][1] is True and vals[6][1] is False:
+        return vals[5][0]
+    return None
+
+
 def _arrays(ctx, prog):
+    pads = {}
     for name, rty in (('read_offsets', 'Result<[f64; 6]'), ('read_sign_corrections', 'Result<[i8; 6]')):
         bs = [b for p, b in prog.bodies.items() if p.startswith('parameters_from_file::') and b.kind != 'Closure' and rty in util.sig(b)[0]]
         if not ctx.check(len(bs) == 1, 'R19.3', name + '/exists', '', name, 'array reader not found'):
@@ -319,12 +380,16 @@ def _arrays(ctx, prog):
         ctx.fn(b)
         pad = err = False
         for bi, t in b.calls():
-            if cname(callee_name(t)) == 'Vec::push':
+            n = cname(callee_name(t))
+            grows_to_six = n == 'Vec::push' or (n == 'Vec::resize' and util.const_val(strip(b.op_term(t['args'][1], (bi, None)))) == 6)
+            if grows_to_six:
+                pads[name.replace('read_', '')] = util.const_val(strip(b.op_term(t['args'][-1], (bi, None))))
                 gs = [(strip(g), opw.truth(k)) for g, k, sw in b.guard_terms(bi)]
-                pad = any(isinstance(g, tuple) and g[0] == 'bin' and g[1] == 'Eq' and util.const_val(g[3]) == 5 and 'len' in show(g[2], maxdepth=3) and v is True for g, v in gs)
+                pad = pad or any(isinstance(g, tuple) and g[0] == 'bin' and g[1] == 'Eq' and util.const_val(g[3]) == 5 and 'len' in show(g[2], maxdepth=3) and v is True for g, v in gs)
         for t, d, rb in b.return_values():
             t = strip(t)
             if isinstance(t, tuple) and t[0] == 'agg' and 'Err' in t[1] and 'InvalidLength' in show(t, maxdepth=4):
                 gs = [(strip(g), opw.truth(k)) for g, k, sw in b.guard_terms(d[1])]
                 err = any(isinstance(g, tuple) and g[0] == 'bin' and g[1] == 'Ne' and util.const_val(g[3]) == 6 and v is True for g, v in gs)
         ctx.check(pad and err, 'R19.3', name, b.where(0), b.path, 'a five-entry array must be padded to six and any other length must yield InvalidLength', found='pad=%s error=%s' % (pad, err))
+    return pads
